@@ -3,6 +3,9 @@ import ast
 import time
 import traceback
 
+import os
+import sys
+
 import z3
 
 from . import ops
@@ -209,6 +212,13 @@ class FunctionRun:
             penv2 = Env(mod, env, c.qualname, c.cls)
             penv2.vars.update(entry)
             penv2.old = env.old
+            if not ctx.replaying:
+                if ctx._sat(z3.BoolVal(True)) == z3.unsat:
+                    # the path condition is contradictory: an infeasible path that the branch-feasibility checks (unknown counts as
+                    # feasible, short time budget, nonlinear arithmetic) let through.  Nothing is reachable here: not an exit of the function.
+                    # (Assumptions that contradict each other on EVERY path leave no completed path: reported as vacuous.)
+                    raise Infeasible()
+                self.canary_ok = True  # vacuity guard: `False` is not provable at this exit
             self.completed_paths += 1  # the function reached an exit on this path
             if len(self.sample_paths) < 3:
                 self.sample_paths.append(",".join(ctx.notes[:10]))
@@ -221,9 +231,6 @@ class FunctionRun:
         ctx = interp.ctx
         q = c.qualname + ("[%s]" % c.variant if c.variant else "")
         env.extra["yields"] = PyList(ctx.yields)
-        if self.canary_ok is None and not ctx.replaying:
-            # vacuity guard: `False` must NOT be provable at a reachable exit
-            self.canary_ok = ctx._sat(z3.BoolVal(True)) != z3.unsat
         if outcome == "return":
             self.outcomes["return"] = self.outcomes.get("return", 0) + 1
             env.extra["result"] = val
